@@ -34,6 +34,7 @@ def base_state(top_modes, ckpt="none", default_bottom=False):
     # the slot right below the known suffix exists unless the suffix starts at the bottom (Default)
     st.fields["_certain_floor"] = 0 if default_bottom else -1
     st.ckpt = ckpt
+    st.fields["_minc"] = {0: 0}
     if ckpt == "some":
         ck = Cursor("ck", -100000, False)
         st.cursors["ck"] = ck
